@@ -134,18 +134,25 @@ prop('C19', 'exploration',
      COMMON_ASSUME + ['the 2^32 additions are replaced by the EVENTPP_VERIF accessor verifSetCounterBeforeMax (forward only)'],
      q, t)
 
-q, t = multi_stages([('cbl', 2000, 100000), ('queue', 2000, 100000), ('cbl_f', 250, 2000), ('queue_f', 100, 1500)])
+q, t = multi_stages([('cbl', 2000, 100000), ('queue', 2000, 100000), ('cbl_f', 250, 2000), ('queue_f', 100, 1500), ('cq', 5000, 100000)])
 prop('C08', 'exploration',
      'ledger oracle over the cbl program classes (every construction/destruction of callbacks and payloads recorded by address; LeakSanitizer confirmation when the heap '
      'does not return to its pre-case size); the fault-enumeration variants (see C09) re-run the same histories with an exception injected at every fault point of sampled operations; '
+     'concurrent half (cq harness): the C06 thread programs under the harness-owned scheduler with every copy / move of a payload a scheduling point, so that an argument read by one thread (peekEvent, takeEvent, dispatch) after another thread destroyed it is flagged by the ledger; '
      'non-trivial = a callback was removed while an invocation was running, or a list/queue was destroyed non-empty',
      COMMON_ASSUME, q, t)
 
 q, t = std_stages('queue', 8000, 150000, fuzz_runs=200000)
+# queues with Mixins (MixinFilter, user mixins): the queued-dispatch cases of the filter harness, lock-step with the filter-chain model
+q['stages'].insert(1, dict(engine='replay', harness='filter'))
+t['stages'].insert(1, dict(engine='replay', harness='filter'))
+q['stages'].append(dict(engine='rc', harness='filter', procs=8, cases=1500, timeout=900))
+t['stages'].append(dict(engine='rc', harness='filter', procs=16, cases=40000, timeout=3600))
 prop('C05', 'exploration',
      'rapidcheck-generated single-threaded EventQueue histories (<=80 ops): enqueue (lvalue/temporary), process, processOne, processIf, processUntil (scripted predicates, with and without '
      'arguments), peekEvent, takeEvent(+dispatch), clearEvents, emptyQueue, waitFor(0), DisableQueueNotify scopes, listener changes; listener and predicate scripts enqueue, change listeners and '
      'issue nested consuming calls; 4 prototypes (by value, const string&, move-only unique_ptr, getEvent policy) x 3 threading policies; lock-step queue model; '
+     'second harness (filter): queues with Mixins (MixinFilter, counting mixins) - a queued event must go through the same filter chain and reach the same listeners with the same rewritten arguments as a direct dispatch; '
      'non-trivial = a processIf/processUntil declined an event while a listener enqueued one, a slot was reused, and a take/peek happened between partial processings',
      COMMON_ASSUME + ['nested consuming calls inside processIf/processUntil are not generated (the statement does not say whether declined events are visible to them)'],
      q, t)
@@ -160,10 +167,16 @@ q, t = std_stages('disp', 2500, 100000, fuzz_runs=150000)
 # argument evaluation order is compiler-dependent: the same harness is also built with g++
 q['stages'].append(dict(engine='rc', harness='disp', variant='gxx', procs=8, cases=1500, timeout=900))
 t['stages'].append(dict(engine='rc', harness='disp', variant='gxx', procs=16, cases=50000, timeout=3600))
+# dispatchers with Mixins: the direct-dispatch cases of the filter harness (filters and listeners carry scripts that add and remove listeners and filters)
+q['stages'].insert(1, dict(engine='replay', harness='filter'))
+t['stages'].insert(1, dict(engine='replay', harness='filter'))
+q['stages'].append(dict(engine='rc', harness='filter', procs=8, cases=1500, timeout=900))
+t['stages'].append(dict(engine='rc', harness='filter', procs=16, cases=40000, timeout=3600))
 prop('C04', 'exploration',
      'rapidcheck-generated EventDispatcher histories over 14 configurations (keys: int incl. INT_MIN/MAX, enum class, std::string incl. "", embedded NUL and non-SSO, user ordered key, user hashed key with '
      'colliding hash; prototypes by value / by const reference / event excluded / getEvent policy (also user getEvent policies taking their arguments by value, in the exclude and the include form, and one that routes to another event than its first argument); a comparable user Callback type with the hasListener / removeListener / hasAnyListener(dispatcher, event, callback) helpers of eventutil.h and several equal callbacks per event; ArgumentPassing auto/include/exclude; unordered_map, std::map, user map) with dispatches whose arguments '
      'are lvalues or temporaries and listeners taking arguments by value (stealing them) or by reference and counting their own calls (the registered object must be the one that runs); oracle = per-key list model + argument summaries + caller lvalues unchanged + listener-internal state; '
+     'second harness (filter): dispatchers with Mixins whose filters and listeners run scripts (add / remove listeners and filters, nested dispatch), e.g. a filter registering the first listener of the event being dispatched; the listeners that are attached when the filter chain ends must each run once; '
      'non-trivial = >=2 keys with listeners, a dispatch with a temporary key whose first listener takes its arguments by value, >=2 listeners on that key',
      COMMON_ASSUME + ['key/prototype universe is the 14-row configuration table', 'insert/remove through a handle of another event of the same dispatcher are not generated (documented UB)'],
      q, t)
@@ -192,7 +205,7 @@ q, t = std_stages('cq', 10000, 200000)
 sched_enum(q, 'cq', 1, 8, 900)
 sched_enum(t, 'cq', 2, 16, 5400)
 prop('C07', 'exploration',
-     'generated programs of waiter threads (wait / waitFor then drain), enqueuers (optionally inside nested DisableQueueNotify scopes) and processors (process, processOne, processIf, processUntil) under the harness-owned scheduler, plus every schedule with <=1 (quick) / <=2 (thorough) preemptions of 30 fixed small programs (bounded-exhaustive stage); '
+     'generated programs of waiter threads (wait / waitFor then drain), enqueuers (optionally inside nested DisableQueueNotify scopes) and processors (process, processOne, processIf, processUntil) under the harness-owned scheduler, plus every schedule with <=1 (quick) / <=2 (thorough) preemptions of 38 fixed small programs (bounded-exhaustive stage; DisableQueueNotify scopes may be left by an exception); '
      'oracle = at every quiescent state (no runnable thread) a parked waiter with pending events and no DisableQueueNotify alive is a lost wake-up; otherwise waiters are released by sentinel enqueues; '
      'every returned wait must have had a step with a possibly non-empty queue and no certainly-alive DisableQueueNotify; waitFor false only after its timeout fired; '
      'non-trivial = a wait was in progress when an enqueue or the destruction of a DisableQueueNotify completed',
